@@ -182,7 +182,14 @@ def handlers(emit, repo):
                 for n, d in zip(names, descs):
                     f.write("\n  %r : {   # %s\n" % (n, n))
                     for k in [x for x in ("rewards", "players", "transition_list", "final_states", "prune_states") if x in d]:
-                        f.write("      %r :\n          %s ,\n" % (k, lit(d[k])))
+                        text = lit(d[k])
+                        # builtins are part of what a file may denote: list(...), range(...)
+                        if k == "rewards" and isinstance(d[k], list):
+                            text = "list(%s)" % lit(tuple(d[k]))
+                        if k == "final_states" and isinstance(d[k], list) and d[k] and all(isinstance(x, int) and not isinstance(x, bool) for x in d[k]) \
+                                and d[k] == list(range(d[k][0], d[k][0] + len(d[k]))):
+                            text = "list(range(%d, %d))" % (d[k][0], d[k][0] + len(d[k]))
+                        f.write("      %r :\n          %s ,\n" % (k, text))
                     f.write("  } ,\n")
                 f.write("\n}\n# end\n")
             else:               # hand-written style: comments, one field per line, trailing commas
